@@ -4,7 +4,7 @@ from .. import harness, gen, pyref, corr
 from ..curve import *
 
 VO = ['Props/C04.vo']
-FILES = ['Props/C04.v', 'Proofs/EdwardsLaw.v', 'Proofs/Projective.v', 'Proofs/Final.v', 'Tie/Curve.v', 'Proofs/Instance.v']
+FILES = ['Props/C04.v', 'Tie/Dep.v', 'Proofs/EdwardsLaw.v', 'Proofs/Projective.v', 'Proofs/Final.v', 'Tie/Curve.v', 'Proofs/Instance.v']
 
 def forms(build):
     """(op, arg kinds, python reference) for every add/sub/neg/double form in the model's table"""
